@@ -516,6 +516,42 @@ def run(tier, seed):
                                   bad.line(), S, f), function=fn.cname, obj="dangling-%s.%s" % (S, f))
         rep.extra["field_release_sites"] = nrel
 
+        # ---- R8 realloc over the only reference ------------------------------------------------------------------------------------
+        # `p = realloc(p, n)`: when it fails the old block is still allocated and p was its only reference.  The slot the old pointer
+        # was loaded from may receive the result only where the result is known to be non-NULL.
+        r8 = rep.rule("R8", "the result of realloc is stored over the slot the old pointer came from only under the fact that it is not NULL", 1)
+        nre8 = 0
+        for fn in lib_fns:
+            Mf = Matcher(fn)
+            for c in fn.calls("realloc"):
+                nre8 += 1
+                Ff = ctx.facts(fn)
+                old = Mf.strip(c.ops[0], ("bitcast",))
+                dold = fn.defn(old)
+                if dold is None or dold.is_param or dold.op != "load":
+                    rep.ok(r8, "%s: realloc of a value that is not loaded from a slot (nothing to overwrite)" % fn.cname, None, c.where())
+                    continue
+                slot = Mf.strip(dold.ops[0], ("bitcast",))
+                # values that are the result (through casts / phis that merge it with nothing else)
+                res = {c.id}
+                changed = True
+                while changed:
+                    changed = False
+                    for i in fn.insts():
+                        if i.id in res:
+                            continue
+                        if i.op in ("bitcast",) and i.ops[0][0] == "v" and i.ops[0][1] in res:
+                            res.add(i.id); changed = True
+                bad = []
+                for st in fn.insts():
+                    if st.op == "store" and st.ops[0][0] == "v" and st.ops[0][1] in res and (Mf.strip(st.ops[1], ("bitcast",)) == slot or Mf.equiv(st.ops[1], dold.ops[0])):
+                        if Mf.find_fact(("ne", ("inst", c.id), 0), Ff.at_inst(st))[0] is None:
+                            bad.append(st)
+                rep.check(r8, not bad, "%s: the reallocated pointer replaces the old one only when non-NULL" % fn.cname, c.where(),
+                          None if not bad else "stored back at %s before the NULL test: on failure the old block leaks and the slot holds NULL" % bad[0].where(),
+                          function=fn.cname, obj="realloc-slot")
+        rep.check(r8, nre8 >= 1, "realloc sites found", "lib/", "%d" % nre8, function="realloc", obj="sites")
+
         # ---- R6 dropped failure status ------------------------------------------------------------------------------------------
         r6 = rep.rule("R6", "the status of a lib/ function that reports allocation failure by its return value is not dropped by its callers", 10)
         # functions that can fail because an allocation failed: return 0/NULL on an edge 'alloc == NULL'
